@@ -428,9 +428,12 @@ func runC13(c *Ctx) {
 		c.mu.Unlock()
 		c.Count("networks_x_solver_x_variant", nets)
 	})
+	if !c.isWorker {
+		c13Chains(c)
+	}
 	c.States = int64(len(c.distinct))
 	c.Sample(map[string]interface{}{"network": c13Spec(c13Shape{1}, 0b10_01_0110, true, false).Short(), "history": opsString([]int{opLoad1, opRecursive}), "continuation": opsString([]int{opLoad2, opFwd1, opFwd2})})
-	c.Rule = fmt.Sprintf("networks: ALL digraphs over {bias, input, output, hidden} (4 neuron->neuron edges incl. self-loops and output->hidden, 4 sensor->neuron edges; the output precedes the hidden node in the node list)%s, each in two variants (plain; cycle-closing edges flagged recurrent and time-delayed in the standard network + mixed activation types); solvers: standard Network, the fast solver derived from it, and a fast solver constructed directly through NewFastModularNetworkSolver with the bias links as ordinary connections; alphabet: Load(0.5), Load(-1.5), Forward(1), Forward(2), Recursive, Relax(3,1e-9) [fast], Depth(0), Depth(1) [network], Flush; histories additionally Activate() [network], a load with the wrong number of values, and the read-only accessors / printers / graph queries; every history h of length 1..%d and every continuation s of length 1..%d: outputs, boolean results and errors of every step of s after (h; Flush) must equal those on a fresh instance bit for bit. states = distinct (network, solver, variant), transitions = (h,s) pairs compared",
+	c.Rule = fmt.Sprintf("networks: ALL digraphs over {bias, input, output, hidden} (4 neuron->neuron edges incl. self-loops and output->hidden, 4 sensor->neuron edges; the output precedes the hidden node in the node list)%s, each in two variants (plain; cycle-closing edges flagged recurrent and time-delayed in the standard network + mixed activation types); solvers: standard Network, the fast solver derived from it, and a fast solver constructed directly through NewFastModularNetworkSolver with the bias links as ordinary connections; alphabet: Load(0.5), Load(-1.5), Forward(1), Forward(2), Recursive, Relax(3,1e-9) [fast], Depth(0), Depth(1) [network], Flush; histories additionally Activate() [network], a load with the wrong number of values, and the read-only accessors / printers / graph queries; every history h of length 1..%d and every continuation s of length 1..%d: outputs, boolean results and errors of every step of s after (h; Flush) must equal those on a fresh instance bit for bit. Plus deep chains: 640 chain-shaped networks (chain length 1-4, one extra recurrent link into a chain node from the sensor / a side neuron / the output / the node itself, time-delayed or not, node list in signal or reverse order, with or without a direct sensor->output link) x 5 driving modes (Activate, ForwardSteps(1), alternating, fast solver ForwardSteps(1), fast solver Relax) x every warm-up length 1..7 before the flush, then a 7-step sequence compared step by step with a fresh instance. states = distinct (network, solver, variant), transitions = (h,s) pairs compared",
 		map[bool]string{true: " plus six hand-picked two-hidden recurrent networks", false: " and ALL digraphs over {bias, input, output, 2 hidden} (9 + 6 edges; histories and continuations of length <= 2 for these)"}[c.Quick()], hl, sl)
 	c.Assume("observations are the outputs, results and errors after every operation (node-internal state is observed only through them)")
 }
@@ -442,7 +445,188 @@ func b2i(b bool) int {
 	return 0
 }
 
+// ---------------------------------------------------------------------------
+// deep chains: long histories on structured networks
+//
+// The exhaustive part reaches 4-5 neurons and histories of 2-3 operations. Leftovers that need a signal
+// to travel several layers before the flush are out of its reach, so a family of chain-shaped networks is
+// driven with long step sequences: sensor -> n_L -> ... -> n_1 -> output, optionally a direct
+// sensor -> output link, plus ONE extra link into a chain node that is time-delayed and/or recurrent,
+// coming from the sensor, from a shallow side neuron, from the output or from the node itself; the node
+// list in signal order or in reverse. For every warm-up length k: run the first k steps, flush, run the
+// whole sequence; every step must match the run on a fresh instance.
+
+type c13Chain struct {
+	L       int  `json:"chain_len"`
+	Target  int  `json:"extra_target"` // chain node index 1..L (1 is next to the output)
+	Source  int  `json:"extra_source"` // 0 sensor, 1 side neuron fed by the sensor, 2 output, 3 the target itself
+	Delayed bool `json:"time_delayed"`
+	Reverse bool `json:"reverse_node_order"`
+	Direct  bool `json:"direct_sensor_output_link"`
+	Mode    int  `json:"mode"` // 0 Activate(), 1 ForwardSteps(1), 2 alternating, 3 fast solver ForwardSteps(1), 4 fast solver Relax
+	WarmUp  int  `json:"warm_up"`
+}
+
+func (cs c13Chain) build() (*network.Network, network.Solver, error) {
+	in, out := network.NewNNode(1, network.InputNeuron), network.NewNNode(2, network.OutputNeuron)
+	chain := make([]*network.NNode, cs.L+1) // chain[1] feeds the output
+	for i := 1; i <= cs.L; i++ {
+		chain[i] = network.NewNNode(2+i, network.HiddenNeuron)
+	}
+	side := network.NewNNode(3+cs.L, network.HiddenNeuron)
+	if cs.Direct {
+		out.ConnectFrom(in, 0.1)
+	}
+	out.ConnectFrom(chain[1], -0.4)
+	for i := 1; i < cs.L; i++ {
+		chain[i].ConnectFrom(chain[i+1], []float64{-0.3, 1, 0.75}[i%3])
+	}
+	chain[cs.L].ConnectFrom(in, 1.0)
+	side.ConnectFrom(in, 0.2)
+	var src *network.NNode
+	switch cs.Source {
+	case 0:
+		src = in
+	case 1:
+		src = side
+	case 2:
+		src = out
+	case 3:
+		src = chain[cs.Target]
+	}
+	extra := chain[cs.Target].ConnectFrom(src, 0.25)
+	extra.IsRecurrent = true
+	extra.IsTimeDelayed = cs.Delayed
+	all := []*network.NNode{in, out}
+	if cs.Reverse {
+		for i := 1; i <= cs.L; i++ {
+			all = append(all, chain[i])
+		}
+	} else {
+		for i := cs.L; i >= 1; i-- {
+			all = append(all, chain[i])
+		}
+	}
+	all = append(all, side)
+	net := network.NewNetwork([]*network.NNode{in}, []*network.NNode{out}, all, 0)
+	if cs.Mode >= 3 {
+		fs, err := net.FastNetworkSolver()
+		return net, fs, err
+	}
+	return net, net, nil
+}
+
+var c13ChainInputs = []float64{0.9, 0.4, 0.7, 0.2, 0.8, 0.5, 0.3}
+
+func c13ChainSteps(net *network.Network, solver network.Solver, mode int, n int, b *strings.Builder) {
+	for i := 0; i < n; i++ {
+		var res bool
+		var err error
+		func() {
+			defer func() {
+				if r := recover(); r != nil {
+					err = fmt.Errorf("panic: %v", r)
+				}
+			}()
+			if err = solver.LoadSensors([]float64{c13ChainInputs[i%len(c13ChainInputs)]}); err != nil {
+				return
+			}
+			switch {
+			case mode == 0 || (mode == 2 && i%2 == 0):
+				res, err = net.Activate()
+			case mode == 4:
+				res, err = solver.Relax(2, 1e-9)
+			default:
+				res, err = solver.ForwardSteps(1)
+			}
+		}()
+		es := ""
+		if err != nil {
+			es = err.Error()
+			if k := strings.Index(es, "NNODE"); k >= 0 {
+				es = es[:k]
+			}
+		}
+		fmt.Fprintf(b, "%v|%s|", res, es)
+		for _, o := range solver.ReadOutputs() {
+			fmt.Fprintf(b, "%016x,", math.Float64bits(o))
+		}
+		b.WriteByte(';')
+	}
+}
+
+// c13ChainRun returns (observations after warm-up+flush, observations on a fresh instance).
+func c13ChainRun(cs c13Chain) (got, fresh string, err error) {
+	T := len(c13ChainInputs)
+	n0, s0, err := cs.build()
+	if err != nil {
+		return "", "", err
+	}
+	var f strings.Builder
+	c13ChainSteps(n0, s0, cs.Mode, T, &f)
+	n1, s1, _ := cs.build()
+	var junk, g strings.Builder
+	c13ChainSteps(n1, s1, cs.Mode, cs.WarmUp, &junk)
+	if ok, ferr := s1.Flush(); ferr != nil || !ok {
+		fmt.Fprintf(&g, "FLUSH-FAILED(%v,%v)", ok, ferr)
+	}
+	c13ChainSteps(n1, s1, cs.Mode, T, &g)
+	return g.String(), f.String(), nil
+}
+
+func c13Chains(c *Ctx) {
+	var n int64
+	nets := 0
+	for L := 1; L <= 4; L++ {
+		for target := 1; target <= L; target++ {
+			for source := 0; source <= 3; source++ {
+				for _, delayed := range []bool{true, false} {
+					for _, rev := range []bool{false, true} {
+						for _, direct := range []bool{true, false} {
+							nets++
+							for mode := 0; mode <= 4; mode++ {
+								for k := 1; k <= len(c13ChainInputs); k++ {
+									cs := c13Chain{L: L, Target: target, Source: source, Delayed: delayed, Reverse: rev, Direct: direct, Mode: mode, WarmUp: k}
+									got, fresh, err := c13ChainRun(cs)
+									if err != nil {
+										continue
+									}
+									n++
+									if got != fresh {
+										params := map[string]interface{}{}
+										js, _ := jsonMarshal(cs)
+										_ = jsonUnmarshal(js, &params)
+										msg := fmt.Sprintf("chain network %+v: after %d warm-up steps and Flush the %d-step sequence observes %q, a fresh instance observes %q", cs, k, len(c13ChainInputs), got, fresh)
+										c.ViolateOrd("C13/chain/flushed-differs-from-fresh", int64(L*1000+k*10+mode), msg, &Replay{Scenario: "chain", Params: params, Clause: msg})
+									}
+								}
+							}
+						}
+					}
+				}
+			}
+		}
+	}
+	c.mu.Lock()
+	c.Evaluations += n
+	c.Traces += n
+	c.Transitions += n * int64(len(c13ChainInputs))
+	c.mu.Unlock()
+	c.Count("chain_networks", int64(nets))
+	c.Count("chain_runs", n)
+}
+
 func replayC13(c *Ctx, rp *Replay) (bool, string) {
+	if rp.Scenario == "chain" {
+		var cs c13Chain
+		js, _ := jsonMarshal(rp.Params)
+		_ = jsonUnmarshal(js, &cs)
+		got, fresh, err := c13ChainRun(cs)
+		if err == nil && got != fresh {
+			return true, fmt.Sprintf("chain network %+v: observes %q, fresh observes %q", cs, got, fresh)
+		}
+		return false, fmt.Sprintf("chain %+v", cs)
+	}
 	var cs c13Case
 	js, _ := jsonMarshal(rp.Params)
 	_ = jsonUnmarshal(js, &cs)
